@@ -121,6 +121,23 @@ def correspond(ctx, scale=1):
                 mismatches.append(m)
             elif len(samples) < 6 and abs(n) > 1:
                 samples.append({"n": n, "start": s, "result": cpp})
+    # a multi-segment walk into the top of the range (16 KiB segments): the count of primes above start comes from
+    # Miller-Rabin; the last prime below 2^64 must be reached exactly, one more must fail
+    s0 = MAX64 - 2 * 10 ** 6 - rng.below(10 ** 5)
+    rc, o, e = ps.run([probe], input="MRCOUNT %d %d\n" % (s0 + 1, MAX64), timeout=300)
+    if rc == 0 and o.strip():
+        cnt = int(o.split()[0])
+        rc, o, e = ps.run([probe], input="SS 16\nNTH %d %d 1\nNTH %d %d 1\nNTH %d %d 1\n" % (cnt, s0, cnt + 1, s0, cnt - 1, s0), timeout=600)
+        li = [l for l in o.splitlines() if l.startswith("cpp")]
+        p_last = 18446744073709551557
+        want = [str(p_last), "err", str(oracle.prev_prime_lt(p_last))]
+        for (n, exp), a in zip(((cnt, want[0]), (cnt + 1, want[1]), (cnt - 1, want[2])), li + ["cpp crash c crash errno=?"] * 3):
+            evaluations += 1
+            t = a.split()
+            sigs.add(("top-walk", exp == "err"))
+            if t[1] != exp or t[3] != exp:
+                mismatches.append({"key": "nth-top", "n": n, "start": s0, "what": "nth_prime(%d, %d) with 16 KiB segments: %s; documented result %s" % (n, s0, a, exp),
+                                   "failing_input": {"n": n, "start": s0, "sieve_size": 16, "observed": a, "expected": exp}})
     return {"evaluations": evaluations, "distinct_nontrivial": len(sigs),
             "rule": "(n, start): n in {0, +-1.. +-100} at structured starts (primes and their neighbours, 0..39, table edge, p^2, 2^32, top of range); |n| = pi(start-1)+{-1,0,1}; |n| in 300..6000 up to 1e11 (bulk-count branch, both correction walks; model run with estimates biased by -30..+30 percent); INT64_MIN/MAX, +-(max_n+1). C++ vs C (errno) vs model. distinct = distinct (sign/zero, size class of n, error?, prime start?, magnitude class)",
             "samples": samples, "mismatches": sorted(mismatches, key=lambda m: 0 if m.get("failing_input") else 1)[:20], "distribution": dist, "variants": ["default"]}
